@@ -165,3 +165,124 @@ theorem spellings_nodup (d : Def) (v : Value)
           exact parseCase_inj a b ka hpa hpb
 
 end Emboss.Enum
+
+/-! ## the back end's own check (`_verify_generated_enum_value_names_are_distinct`) -/
+namespace Emboss.Enum
+
+theorem distinctLoop_iff (seen l : List Name) :
+    distinctLoop seen l = true ↔ l.Nodup ∧ ∀ x ∈ l, x ∉ seen := by
+  induction l generalizing seen with
+  | nil => simp [distinctLoop]
+  | cons a as ih =>
+    simp only [distinctLoop, Bool.and_eq_true, Bool.not_eq_true', List.contains_eq_mem,
+      decide_eq_false_iff_not, ih, List.nodup_cons, List.mem_cons, forall_eq_or_imp]
+    constructor
+    · rintro ⟨h1, h2, h3⟩
+      refine ⟨⟨fun ha => (h3 a ha) (Or.inl rfl), h2⟩, h1, fun x hx hs => h3 x hx (Or.inr hs)⟩
+    · rintro ⟨⟨h1, h2⟩, h3, h4⟩
+      refine ⟨h3, h2, ?_⟩
+      intro x hx hs
+      rcases hs with rfl | hs
+      · exact h1 hx
+      · exact h4 x hx hs
+
+theorem mapM_option_eq_map {α β : Type} (f : α → Option β) (g : α → β) (l : List α)
+    (h : ∀ a ∈ l, f a = some (g a)) : l.mapM f = some (l.map g) := by
+  induction l with
+  | nil => rfl
+  | cons a as ih =>
+    simp only [List.mapM_cons, h a (List.mem_cons_self ..)]
+    rw [ih (fun b hb => h b (List.mem_cons_of_mem _ hb))]
+    rfl
+
+/-- When `generate` succeeds every value has its spellings (no crash). -/
+theorem generate_spellings (d : Def) (g : Gen) (h : generate d = some g) :
+    d.values.mapM d.spellings = some (d.values.map (namesOf d)) := by
+  apply mapM_option_eq_map
+  intro v hv
+  unfold generate at h
+  cases hty : cppTypeForEnum d.maxBits d.isSigned with
+  | none => simp [hty] at h
+  | some ty =>
+    simp only [hty] at h
+    cases hst : stepValues (defaultsOf d.levels) ⟨{ ty := ty }, []⟩ d.values with
+    | none => simp [hst] at h
+    | some st =>
+      obtain ⟨l, hl⟩ := stepValues_some _ _ _ _ hst v hv
+      simp [Def.spellings, namesOf, hl]
+
+/-- The back end's check is exact: for a generated enum it passes iff the enumerator
+identifiers are pairwise distinct. -/
+theorem namesDistinct_iff (d : Def) (g : Gen) (hgen : generate d = some g) :
+    d.namesDistinct = true ↔ (g.enumerators.map (·.1)).Nodup := by
+  obtain ⟨_, _, he, _, _, _⟩ := generate_spec d g hgen
+  have e : (enumsOf (namesOf d) d.values).map (·.1) = (d.values.map (namesOf d)).flatten := by
+    simp [enumsOf, List.map_flatMap, Function.comp_def, List.flatMap_def]
+  rw [he, e]
+  simp only [Def.namesDistinct, generate_spellings d g hgen, distinctLoop_iff]
+  simp
+
+end Emboss.Enum
+
+namespace Emboss.Enum
+
+theorem enumerators_nodup_of_accepts (d : Def) (g : Gen) (hgen : generate d = some g)
+    (hacc : d.backAccepts = true) : (g.enumerators.map (·.1)).Nodup := by
+  simp only [Def.backAccepts, Bool.and_eq_true] at hacc
+  exact (namesDistinct_iff d g hgen).mp hacc.2
+
+theorem gatherDefault_mem (inh : Option (List Char)) (attrs : List Attr) (t : List Char)
+    (h : gatherDefault inh attrs = some t) : inh = some t ∨ ∃ a ∈ attrs, a.text = t := by
+  unfold gatherDefault at h
+  induction attrs generalizing inh with
+  | nil => exact Or.inl h
+  | cons a as ih =>
+    simp only [List.foldl_cons] at h
+    rcases ih _ h with h1 | ⟨b, hb, hbt⟩
+    · by_cases hd : a.isDefault = true
+      · simp only [hd, if_true, Option.some.injEq] at h1
+        exact Or.inr ⟨a, List.mem_cons_self .., h1⟩
+      · simp only [hd] at h1
+        exact Or.inl h1
+    · exact Or.inr ⟨b, List.mem_cons_of_mem _ hb, hbt⟩
+
+theorem defaultsOf_mem (levels : List (List Attr)) (t : List Char)
+    (h : defaultsOf levels = some t) : ∃ a ∈ levels.flatten, a.text = t := by
+  unfold defaultsOf at h
+  have key : ∀ (inh : Option (List Char)) (ls : List (List Attr)),
+      ls.foldl gatherDefault inh = some t → inh = some t ∨ ∃ a ∈ ls.flatten, a.text = t := by
+    intro inh ls
+    induction ls generalizing inh with
+    | nil => intro h; exact Or.inl h
+    | cons l ls ih =>
+      intro h
+      simp only [List.foldl_cons] at h
+      rcases ih _ h with h1 | ⟨a, ha, hat⟩
+      · rcases gatherDefault_mem inh l t h1 with h2 | ⟨a, ha, hat⟩
+        · exact Or.inl h2
+        · exact Or.inr ⟨a, by simp [ha], hat⟩
+      · exact Or.inr ⟨a, by simp only [List.flatten_cons, List.mem_append]; exact Or.inr ha, hat⟩
+  rcases key none levels h with h1 | h1
+  · cases h1
+  · exact h1
+
+/-- Every `enum_case` text that takes effect at a value was verified. -/
+theorem effective_verified (d : Def) (hver : d.attrsVerified = true) (v : Value) (hv : v ∈ d.values)
+    (t : List Char) (ht : effectiveCase v.attrs (defaultsOf d.levels) = .cases t) :
+    verifyCases t = true := by
+  simp only [Def.attrsVerified, List.all_eq_true, List.mem_append, List.mem_flatMap] at hver
+  unfold effectiveCase at ht
+  split at ht
+  · split at ht
+    · cases ht
+    · rename_i t' hd
+      cases ht
+      obtain ⟨a, ha, hat⟩ := defaultsOf_mem _ _ hd
+      rw [← hat]; exact hver a (Or.inl ha)
+  · rename_i a hf
+    cases ht
+    have : a ∈ v.attrs.filter (fun a => !a.isDefault) := by rw [hf]; exact List.mem_cons_self ..
+    exact hver a (Or.inr ⟨v, hv, (List.mem_filter.mp this).1⟩)
+  · cases ht
+
+end Emboss.Enum
